@@ -364,6 +364,10 @@ func makeSources(w *WSpec) {
 	}
 	for _, f := range w.SourceFiles() {
 		os.MkdirAll(filepath.Dir(f), 0777)
-		os.WriteFile(f, []byte(f), 0644)
+		c := f
+		if sc, ok := w.SourceContent[f]; ok {
+			c = sc
+		}
+		os.WriteFile(f, []byte(c), 0644)
 	}
 }
